@@ -20,7 +20,7 @@ use rand::Rng;
 use serde_json::json;
 
 #[derive(Debug, Clone, Copy, PartialEq)]
-enum Ra { Absent, Authentic, SigFlip, OtherSession, OtherItems, UntrustedCa, NoX5, GarbageX5, AttachedPayload, WrongAlg, OtherKey }
+enum Ra { Absent, Authentic, SigFlip, OtherSession, OtherItems, UntrustedCa, NoX5, GarbageX5, AttachedPayload, WrongAlg, OtherKey, ImpostorThenGenuine, GenuineThenCa, OtherSessionAttached }
 
 pub fn items_request_bytes(rng: &mut StdRng, noncanonical: bool) -> Vec<u8> {
     let ids = ["family_name", "given_name", "age_over_18", "portrait"];
@@ -83,7 +83,7 @@ pub fn run(ctx: &mut Ctx) {
             ("unrelated-reader-ca", registry(vec![(other_pki.reader_ca.clone(), TrustPurpose::ReaderCa)])),
             ("mixed", registry(vec![(pki.iaca.clone(), TrustPurpose::Iaca), (other_pki.reader_ca.clone(), TrustPurpose::ReaderCa), (pki.reader_ca.clone(), TrustPurpose::ReaderCa)])),
         ];
-        let kinds = [Ra::Absent, Ra::Authentic, Ra::SigFlip, Ra::OtherSession, Ra::OtherItems, Ra::UntrustedCa, Ra::NoX5, Ra::GarbageX5, Ra::AttachedPayload, Ra::WrongAlg, Ra::OtherKey];
+        let kinds = [Ra::Absent, Ra::Authentic, Ra::SigFlip, Ra::OtherSession, Ra::OtherItems, Ra::UntrustedCa, Ra::NoX5, Ra::GarbageX5, Ra::AttachedPayload, Ra::WrongAlg, Ra::OtherKey, Ra::ImpostorThenGenuine, Ra::GenuineThenCa, Ra::OtherSessionAttached];
         let ncases = if ctx.thorough { 120 } else { 40 };
         for ci in 0..ncases {
             let ndr = if ci < kinds.len() { 1 } else { rng.gen_range(1..=3) };
@@ -114,6 +114,12 @@ pub fn run(ctx: &mut Ctx) {
                     Ra::AttachedPayload => Some(reader_auth(&pki.reader_key, Some(reader_der), None, -7, &payload, true)),
                     Ra::WrongAlg => Some(reader_auth(&pki.reader_key, Some(reader_der), None, -35, &payload, false)),
                     Ra::OtherKey => Some(reader_auth(&other_pki.reader_key, Some(reader_der), None, -7, &payload, false)),
+                    // x5chain [impostor's own certificate, a genuine trusted reader's certificate], signed by the impostor
+                    Ra::ImpostorThenGenuine => Some(reader_auth(&other_pki.reader_key, None, Some(arr(vec![bytes(&other_pki.reader.to_der().unwrap()), bytes(&reader_der)])), -7, &payload, false)),
+                    // x5chain [genuine reader certificate, its CA certificate], signed by the genuine reader
+                    Ra::GenuineThenCa => Some(reader_auth(&pki.reader_key, None, Some(arr(vec![bytes(&reader_der), bytes(&pki.reader_ca.to_der().unwrap())])), -7, &payload, false)),
+                    // another session's authentic readerAuth replayed with THAT session's ReaderAuthenticationBytes attached
+                    Ra::OtherSessionAttached => Some(reader_auth(&pki.reader_key, Some(reader_der), None, -7, &rab(&de2, &erk2, &items), true)),
                 };
                 let mut dr = vec![(text("itemsRequest"), Value::Tag(24, Box::new(bytes(&items))))];
                 if let Some(r) = &ra { dr.push((text("readerAuth"), r.clone())); }
@@ -128,7 +134,19 @@ pub fn run(ctx: &mut Ctx) {
                             Some(v) => match X5Chain::from_cbor(v.clone()) {
                                 Err(_) => (1, false, None),
                                 Ok(chain) => {
-                                    let cv = ValidationRuleset::MdlReaderOneStep.validate(&chain, reg).success();
+                                    // the chain verdict is C12's subject; here it is an oracle, cross-checked by a necessary condition
+                                    // computed with x509-cert and p256 only: the FIRST certificate is signed by a ReaderCa anchor's key
+                                    let first_der = match &v { Value::Bytes(b) => b.clone(), Value::Array(a) => a.first().and_then(|x| x.as_bytes().cloned()).unwrap_or_default(), _ => vec![] };
+                                    let indep = x509_cert::Certificate::from_der(&first_der).ok().map(|leaf| {
+                                        use p256::pkcs8::DecodePublicKey;
+                                        let tbs = leaf.tbs_certificate.to_der().unwrap_or_default();
+                                        let sig = leaf.signature.as_bytes().and_then(|b| Signature::from_der(b).ok());
+                                        reg.anchors.iter().any(|a| a.purpose == TrustPurpose::ReaderCa
+                                            && a.certificate.tbs_certificate.subject == leaf.tbs_certificate.issuer
+                                            && match (&sig, a.certificate.tbs_certificate.subject_public_key_info.to_der().ok().and_then(|d| p256::PublicKey::from_public_key_der(&d).ok())) {
+                                                (Some(s), Some(pk)) => VerifyingKey::from(&pk).verify(&tbs, s).is_ok(), _ => false })
+                                    }).unwrap_or(false);
+                                    let cv = ValidationRuleset::MdlReaderOneStep.validate(&chain, reg).success() && indep;
                                     let der = match &v { Value::Bytes(b) => b.clone(), Value::Array(a) => a[0].as_bytes().unwrap().clone(), _ => vec![] };
                                     let vk = x509_cert::Certificate::from_der(&der).ok().and_then(|c| c.tbs_certificate.subject_public_key_info.to_der().ok())
                                         .and_then(|d| { use p256::pkcs8::DecodePublicKey; p256::PublicKey::from_public_key_der(&d).ok() }).map(|pk| VerifyingKey::from(&pk));
